@@ -54,8 +54,12 @@ pub fn inputs(tier: Tier, corpus_dir: &str) -> serde_json::Value {
     }
     for w in ["a=1;\n", "\u{e9} ", "%put a;\n", "/*c*/\n"] {
         arbitrary.push(w.repeat(257));
-        arbitrary.push(w.repeat(if tier == Tier::Quick { 17_000 } else { 70_000 }));
+        if tier == Tier::Thorough {
+            arbitrary.push(w.repeat(70_000));
+        }
     }
+    // 66 001 tokens: just past 2^16
+    arbitrary.push("a=1;\n".repeat(13_200));
     arbitrary.sort();
     arbitrary.dedup();
     let wellformed = crate::grammar::programs(if tier == Tier::Quick { 2 } else { 3 }, true);
